@@ -438,8 +438,14 @@ package testscript
 //@   ensures len(r) == countP(re, s)
 //@ extern (*regexp.Regexp).FindString(re, s) (r)
 //@   pure
+// (for grep the text searched is the content of the file named by the second argument, read
+// through MkAbs and os.ReadFile: never the stdout/stderr buffers ts.ReadFile would substitute)
+//@ ghost var gGrepAbs Str
 //@ func scriptMatch
 //@   requires ts != nil
+//@   at call (*testscript.TestScript).MkAbs#1: requires sameStr(file, args[1])
+//@   at call (*testscript.TestScript).MkAbs#1: bind gGrepAbs = result
+//@   at call os.ReadFile#1: requires sameStr(name, gGrepAbs) && sid(my_name) == sid(args[1])
 //@   modifies H_Str, new bytes
 //@   ensures neg ==> !matchP(re, my_text)
 //@   ensures !neg ==> matchP(re, my_text) && (n > 0 ==> countP(re, my_text) == n)
@@ -488,6 +494,7 @@ package testscript
 //@   modifies fsExists, gTreeRemoved, gCleanup, failBudget, C_Int, gOpFailed
 //@   at call testscript.removeAll#1: requires dir == ts.workdir && !p.TestWork && !C_Bool[testWork]
 //@   at call os.Remove#1: requires name == testTempDir && refCount == 0 && gTreeRemoved[sid(ts.workdir)]
+//@   at call field:cancel#0: requires refCount == 0 && !p.TestWork && !C_Bool[testWork]
 //@   ensures p.TestWork ==> refCount == old(refCount) && fsExists == old(fsExists)
 //@   ensures !p.TestWork && !C_Bool[testWork] ==> gTreeRemoved[sid(ts.workdir)] && refCount == old(refCount) - 1
 //@   ensures C_Bool[testWork] ==> refCount == old(refCount) && fsExists == old(fsExists)
